@@ -118,6 +118,14 @@ impl Registry {
                             prefix = other;
                         }
                     }
+                    // Expanding an alias can itself produce a prefixed
+                    // name (micron -> micrometer). A name with two prefixes
+                    // cannot be looked up, so keep the alias in that case.
+                    let canonicalized = if self.lookup_exact(&canonicalized).is_some() {
+                        canonicalized
+                    } else {
+                        name.to_owned()
+                    };
                     return Some(format!("{}{}", prefix, canonicalized));
                 }
             }
